@@ -32,7 +32,9 @@ pub fn model_reference(v: &AfVariables, c: &AfConstants, group: i32, now: u64) -
         n.tick_group_index_reference = group;
         n.volatility_reference = 0;
         n.last_reference_update_timestamp = now;
-        return (n, "reset_after_one_hour");
+        // (the reset also applies inside the high-frequency window, i.e. after an unbroken hour-long chain of major swaps)
+        let hf = now.saturating_sub(v.last_reference_update_timestamp.max(v.last_major_swap_timestamp)) < c.filter_period as u64;
+        return (n, if hf { "reset_after_one_hour_inside_the_filter_window" } else { "reset_after_one_hour" });
     }
     let base = v.last_reference_update_timestamp.max(v.last_major_swap_timestamp);
     let elapsed = now.saturating_sub(base);
